@@ -24,6 +24,9 @@ type Request struct {
 	Post   []Pair `json:"post,omitempty"`
 	Hdr    []Pair `json:"hdr,omitempty"`
 	Cookie []Pair `json:"cookie,omitempty"`
+	// Resp: the exchange has a response (status 200, RespHdr as its header fields): phases 3 and 4 run.
+	Resp    bool   `json:"resp,omitempty"`
+	RespHdr []Pair `json:"resp_hdr,omitempty"`
 }
 
 func pct(s string) string {
@@ -77,6 +80,12 @@ func (r Request) Scen() scen.Req {
 	}
 	if len(r.Post) > 0 {
 		out.Body = encodePairs(r.Post)
+	}
+	if r.Resp {
+		out.Status = 200
+		for _, h := range r.RespHdr {
+			out.RespHeaders = append(out.RespHeaders, [2]string{h.N, h.V})
+		}
 	}
 	return out
 }
@@ -207,6 +216,14 @@ func entries(coll string, req Request, phase int) ([]Triple, bool) {
 		src = req.Cookie
 	case "REQUEST_COOKIES_NAMES":
 		src, names = req.Cookie, true
+	case "RESPONSE_HEADERS":
+		if phase >= 3 && req.Resp {
+			src = req.RespHdr
+		}
+	case "RESPONSE_HEADERS_NAMES":
+		if phase >= 3 && req.Resp {
+			src, names = req.RespHdr, true
+		}
 	default:
 		return nil, false
 	}
@@ -440,7 +457,10 @@ func Match(r *Rule, req Request) ([]Triple, bool) {
 // Eval evaluates pass-only rules in phase then configuration order.
 func Eval(rules []*Rule, req Request) ([]Fired, bool) {
 	var out []Fired
-	for phase := 1; phase <= 2; phase++ {
+	for phase := 1; phase <= 5; phase++ {
+		if (phase == 3 || phase == 4) && !req.Resp {
+			continue // no response: the connector goes from the request phases to logging
+		}
 		for _, r := range rules {
 			if r.Phase != phase {
 				continue
